@@ -181,6 +181,23 @@ def decide(pid, cfg, tier, seed, args):
         failing.setdefault(f['qual'], []).append(e)
     if unattributed:
         raise assemble.Undecided("verifier error outside any known function: " + unattributed[0]['text'][:1500])
+    # a woven assertion that serves one property only carries `// @only Cxx[,Cyy]` on its line: for the other properties that
+    # share the function its rejection says nothing (e.g. the SAT-call counter of C18 inside a function that C01 also owns)
+    other_only = {}
+    for q in list(failing.keys()):
+        keep = []
+        for e in failing[q]:
+            cl = e.get('clause_line')
+            src = gen_lines[cl - 1] if cl and 0 < cl <= len(gen_lines) else ''
+            mt = re.search(r'@only\s+(C\d\d(?:\s*,\s*C\d\d)*)', src)
+            if mt and pid not in [x.strip() for x in mt.group(1).split(',')]:
+                other_only.setdefault(q, []).append(mt.group(1))
+                continue
+            keep.append(e)
+        if keep:
+            failing[q] = keep
+        else:
+            del failing[q]
     n_fail_verus = sum(1 for n, v in res.functions.items() if not v['success'])
     obligations = [f for f in fns if f['mode'] in ('exec', 'proof') and not (f['item'] and not has_body(f))]
     # ---- negative controls must fail
@@ -451,6 +468,7 @@ def decide(pid, cfg, tier, seed, args):
             "assumption_scan": scan,
             "known_findings_reported": [k['what'] for k in known_reported],
             "known_findings_of_other_properties_on_shared_obligations": [k['id'] for k in foreign_known],
+            "assertions_of_other_properties_rejected_in_shared_functions": other_only,
             "unstable": unstable,
             "selftest": selftest_log,
             "extraction_fidelity": fidelity,
